@@ -3,7 +3,7 @@ import seqcheck
 
 
 def knobs(r, i):
-    return {"multi": i % 2 == 0, "threads": 1 + i % 3, "cycle_density": i % 4, "ops": 20 + r.below(80), "unsampled": i % 5 == 0, "same_trace_multi": i % 3 == 0, "open_at_close": i % 4 == 1}
+    return {"multi": i % 2 == 0, "threads": 1 + i % 3, "cycle_density": i % 4, "ops": 20 + r.below(80), "unsampled": i % 5 == 0, "same_trace_multi": i % 3 == 0, "open_at_close": i % 4 == 1, "remote_children": i % 3 == 1}
 
 
 def extra(r):
